@@ -47,9 +47,15 @@ def tagLine {σ : Type} (minFields : Nat) (act : σ → Bytes → Bytes → Outc
     | err => err
     | .panic s => .panic s
 
-/-- `commentLine`: `if len(fields) < 2 { return errBadHeader }; ... fields[1]` -/
+/-- `bytes.SplitN(l, "\t", 2)`: the line itself, or the text before and after the first tab -/
+def splitFirst (sep : UInt8) (l : Bytes) : List Bytes :=
+  if l.dropWhile (· ≠ sep) = [] then [l]
+  else [l.takeWhile (· ≠ sep), (l.dropWhile (· ≠ sep)).drop 1]
+
+/-- `commentLine` (as repaired by /repo b3083ef): `fields := bytes.SplitN(l, "\t", 2);
+if len(fields) < 2 { return errBadHeader }; ... fields[1]` -/
 def commentLineM (l : Bytes) : Outcome Bytes :=
-  let fields := splitOn 9 l
+  let fields := splitFirst 9 l
   if fields.length < 2 then err else index "sam.commentLine:fields[1]" fields 1
 
 /-- the loop of `encoding/hex.Decode(dst, src)`: `dst[i] = ...` for every pair of `src` -/
